@@ -264,9 +264,11 @@ impl BitOrAssign<&Rank> for Rank {
     fn bitor_assign(&mut self, rhs: &Self) {
         let missing = rhs.0.len().saturating_sub(self.0.len());
         self.0.insert_from_slice(0, &rhs.0.as_slice()[..missing]);
+        // self is now at least as long as rhs; words are big-endian, so align from the back
         self.0
             .iter_mut()
-            .zip(rhs.0.iter())
+            .rev()
+            .zip(rhs.0.iter().rev())
             .for_each(|(base, val)| *base |= *val);
     }
 }
